@@ -39,7 +39,7 @@ def gen_pph(rng):
     pt = rng.choice([0, 0, 1, 2, 3])
     fl = rng.choice([0, 0x80, 0x40, 0x20, 0x10, 0xc0, 0xf0, rng.below(256)])
     dist = rng.bytes(8) if pt in (1, 2) or rng.chance(1, 4) else bytes(8)
-    addr = rng.bytes(16) if fl & 0x80 else bytes(12) + rng.bytes(4)
+    addr = rng.addr(True) if fl & 0x80 else bytes(12) + rng.addr(False)
     asn = rng.choice([0, 65000, 4200000000, rng.below(1 << 32)])
     bid = rng.bytes(4)
     secs = rng.choice([0, 1, 1700000000, 0xffffffff, rng.below(1 << 32)])
@@ -156,10 +156,9 @@ def gen_valid(rng, upd_pool):
         return common(2, h + bytes([r]) + extra), 'PD', {'pph': he, 'reason': str(r) if r <= 5 else 'U', 'notif': '-', 'fsm': '-'}
     if k == 3:
         h, he = gen_pph(rng)
-        v6 = rng.chance(1, 3)
-        la = rng.bytes(16) if v6 else bytes(12) + rng.bytes(4)
-        if v6 and la[:12] == bytes(12):
-            la = b'\x20' + la[1:]
+        # the 16-octet local address is an IPv4 address exactly when its first 12 octets are zero
+        la = rng.addr(True) if rng.chance(1, 2) else bytes(12) + rng.addr(False)
+        v6 = la[:12] != bytes(12)
         lp, rp = rng.below(65536), rng.below(65536)
         s, r = gen_open(rng), gen_open(rng)
         tl = gen_tlvs(rng)
